@@ -492,13 +492,15 @@ def search(ctx):
                 if r is not None:
                     ctx.fail(r[0], case, detail={'excess': r[1]}, match={'class': cfg.name.split('[')[0], 'symptom': 'block-density'})
                 else:
-                    case = {'cfg': cfg.name, 'seed': ctx.seed, 'oracle': 'block', 'batch_size': 100}
-                    try:
-                        r = block_case(obj, cfg, gen, ctx.seed, batch_size=100)
-                    except Exception as e:
-                        r = ('raised %s: %s' % (DF.err_kind(e), str(e)[:120]), None)
-                    if r is not None:
-                        ctx.fail('with batch_size=100: ' + r[0], case, detail={'excess': r[1]}, match={'class': cfg.name.split('[')[0], 'symptom': 'block-density-batched'})
+                    for bs in (100, 64, 128):          # a leftover batch; batch sizes that divide the number of draws (4 and 2 batches)
+                        case = {'cfg': cfg.name, 'seed': ctx.seed, 'oracle': 'block', 'batch_size': bs}
+                        try:
+                            r = block_case(obj, cfg, gen, ctx.seed, batch_size=bs)
+                        except Exception as e:
+                            r = ('raised %s: %s' % (DF.err_kind(e), str(e)[:120]), None)
+                        if r is not None:
+                            ctx.fail('with batch_size=%d: ' % bs + r[0], case, detail={'excess': r[1]}, match={'class': cfg.name.split('[')[0], 'symptom': 'block-density-batched'})
+                            break
             if len(ctx.failing) >= 8:
                 break
         if ctx.tier == 'thorough':
